@@ -12,3 +12,11 @@ Definition check_wf_legacy (c : bytes * N * bool) : bool := let '(bs, n, _) := c
 (* C04/C02: the model's integrity check and the reference agree on the bytes *)
 Definition check_integrity_ref (c : bytes * N * bool) : bool :=
   let '(bs, n, _) := c in let '(k, ok) := integrity_b bs in ok && (k =? n).
+(* the stream encoder (WriteMessage / SequenceCompleted) accepts exactly what encode_fit accepts, and writes the same bytes *)
+Definition check_senc (c : ecfg * list ifile * eobs) : bool :=
+  let '(cfg, fs, obs) := c in
+  match encode_chain cfg (map mk_file fs) [] [], obs with
+  | EOk x _, EOk y _ => list_N_eqb x y
+  | EErr _, EErr _ => true
+  | _, _ => false
+  end.
